@@ -1,2 +1,3 @@
 SPECIFICATION Spec
-INVARIANTS Emit
+INVARIANTS UnknownRejectedByDefault SizeEnvelope IdentityRule OutermostWins Interval CtorIrrelevant Blake2Rule
+           Emit
